@@ -209,6 +209,15 @@ func tIf(c, a, b *T) *T {
 		if n > 0 {
 			return tSeq(tSeq(pa[:n]...), tIf(c, tSeq(pa[n:]...), tSeq(pb[n:]...)))
 		}
+		// common suffix: if(c, x·B, B) = if(c, x, ε)·B (an early return for
+		// one form repeats the body in both arms)
+		m := 0
+		for m < len(pa) && m < len(pb) && eq(pa[len(pa)-1-m], pb[len(pb)-1-m]) {
+			m++
+		}
+		if m > 0 {
+			return tSeq(tIf(c, tSeq(pa[:len(pa)-m]...), tSeq(pb[:len(pb)-m]...)), tSeq(pa[len(pa)-m:]...))
+		}
 	}
 	// add factoring
 	if a.Op == "add" || b.Op == "add" {
@@ -365,6 +374,21 @@ func tLoop(kind string, space []*T, body *T) *T {
 			}
 			return t
 		})
+	}
+	if kind == "count" && len(space) == 1 && space[0].Op == "len" && len(space[0].A) == 1 {
+		// `for i := 0; i < len(s); i++ { … s[i] … }` with i used for nothing
+		// else is `for _, e := range s`
+		var iv string
+		nb := rewriteT(body, func(t *T) *T {
+			if t.Op == "index" && len(t.A) == 2 && eq(t.A[0], space[0].A[0]) && t.A[1].Op == "var" && strings.HasPrefix(t.A[1].K, "$i") && (iv == "" || iv == t.A[1].K) {
+				iv = t.A[1].K
+				return tVar("$r" + strings.TrimPrefix(iv, "$i"))
+			}
+			return t
+		})
+		if iv != "" && !mentions(nb, "$i") {
+			return tLoop("range", []*T{space[0].A[0]}, nb)
+		}
 	}
 	if v, ok := isConstT(body); ok && v == 0 {
 		return tConst(0)
